@@ -856,7 +856,7 @@ pub fn run_c17(ctx: &Ctx) -> i32 {
 
 pub fn run_c18(ctx: &Ctx) -> i32 {
     let out = Arc::new(Mutex::new(Outcome::default()));
-    let n = ctx.tier.pick(40_000, 2_000_000);
+    let n = ctx.tier.pick(80_000, 6_000_000);
     let prop = ctx.prop.clone();
     let seed = ctx.seed;
     let tier = ctx.tier;
